@@ -557,10 +557,28 @@ class Evaluator(object):
         for n in ast.walk(node):
             if isinstance(n, ast.Name) and isinstance(n.ctx, ast.Load) and n.id in path.env and n.id not in names:
                 names.append(n.id)
-        if not names:
+        bound = []
+        for n in ast.walk(node):
+            if isinstance(n, ast.comprehension):
+                for t_ in ast.walk(n.target):
+                    if isinstance(t_, ast.Name) and t_.id not in bound:
+                        bound.append(t_.id)
+            elif isinstance(n, ast.Lambda):
+                for a_ in n.args.args:
+                    if a_.arg not in bound:
+                        bound.append(a_.arg)
+        names = [x for x in names if x not in bound]
+        if not names and not bound:
             return form.apply("expr:" + norm(node), [])
         try:
             tree = copy.deepcopy(node)
+            if bound:
+                bmap = {b: "_b%d" % k for k, b in enumerate(bound)}
+                for n in ast.walk(tree):
+                    if isinstance(n, ast.Name) and n.id in bmap:
+                        n.id = bmap[n.id]
+                    elif isinstance(n, ast.arg) and n.arg in bmap:
+                        n.arg = bmap[n.arg]
             order = {}
             for n in ast.walk(tree):
                 if isinstance(n, ast.Name) and n.id in names:
@@ -621,7 +639,14 @@ class Evaluator(object):
             if d:
                 old = path.env.get(d)
                 if old is None:
-                    old = Rat.sym(d)
+                    head = d.split(".")[0]
+                    hv = path.env.get(head)
+                    if "." in d and isinstance(hv, Rat) and hv.key() != "$" + head and head != self.selfname:
+                        old = self.ev(_as_load(t), path)      # attribute of a local object: a function of the object's value
+                        if not isinstance(old, Rat):
+                            old = Rat.sym(d)
+                    else:
+                        old = Rat.sym(d)
                 self._event("store", path, node or target, root=d, indices=idxs, value=value, old=old)
                 if any(d.startswith(pfx) for pfx in self.no_thread_prefixes):
                     return
@@ -741,7 +766,7 @@ class Evaluator(object):
             if isinstance(it, list) and it and len(it) <= 6 and all(isinstance(x, Rat) for x in it) and isinstance(st.target, ast.Name) and not st.orelse:
                 # loop over a python list of known values (typically the two results of an unrolled filling loop): element by
                 # element; an in-place store into the loop variable is a store into the list element
-                self.loops.append({"node": st, "iter": form.apply("pylist", [tuple(it)]), "path": path, "conds": list(path.conds)})
+                self.loops.append({"node": st, "iter": form.apply("pylist", [tuple(it)]), "path": path, "conds": list(path.conds), "depth": len(self.loop_stack)})
                 self.loop_stack.append(st)
                 live, done = [path], []
                 lname = dotted(st.iter)
@@ -767,7 +792,7 @@ class Evaluator(object):
                     self.iter_tag.pop()
                 self.loop_stack.pop()
                 return live + done
-            self.loops.append({"node": st, "iter": it, "path": path, "conds": list(path.conds)})
+            self.loops.append({"node": st, "iter": it, "path": path, "conds": list(path.conds), "depth": len(self.loop_stack)})
             n_iter = 2 if self.loop_mode == "unroll2" else 1
             live = [path]
             done = []
@@ -792,7 +817,7 @@ class Evaluator(object):
             c = self.ev(st.test, path)
             if not isinstance(c, Rat):
                 c = self._opaque(st.test, path)
-            self.loops.append({"node": st, "iter": c, "path": path, "conds": list(path.conds)})
+            self.loops.append({"node": st, "iter": c, "path": path, "conds": list(path.conds), "depth": len(self.loop_stack)})
             marker = (c, True)
             path.conds.append(marker)
             n_iter = 2 if self.loop_mode == "unroll2" else 1
